@@ -125,8 +125,11 @@ CHECKS['C01'] = dict(
           'text) and triples_grouping (all 1728 ordered triples, on the token stream) by kernel evaluation — the '
           'exhaustive part of the property\'s own quantifier; sign_and_percent, empty_arguments_keep_position, '
           'array_rows, ragged_rejected, spelling_instances (instances, labelled as such); signrun_counterexample '
-          '(the pinned code folds sign runs: known finding). The unbounded-depth theorem parse_spell is not yet '
-          'ported from the prototype (DESIGN §9): beyond triples the claim rests on the correspondence. The model is '
+          '(the pinned code folds sign runs: known finding). Unbounded depth: parse_fully_parenthesised — for EVERY '
+          'canonical tree (any size, any nesting) the parser model reads the fully parenthesised token list of the '
+          'tree back as that tree (induction over trees, XL.Proofs.ParseRender.parse_toks) — with '
+          'extra_parentheses_transparent / extra_parentheses_inside; for minimally parenthesised spellings beyond '
+          'triples the claim rests on the correspondence (DESIGN §9.2). The model is '
           'compared with Parser().ast on every generated spelling (exhaustive pairs/triples, random trees to depth 5 '
           'in minimal and decorated spellings); the rendering of the parsed tree is compared with the rendering of the '
           'generating tree (independent oracle) and compiled formulas are evaluated against their trees.'),
@@ -134,7 +137,7 @@ CHECKS['C01'] = dict(
     note=COMMON_NOTE + 'The regular expressions of the tokeniser are modelled for the lexeme alphabet of DESIGN §3 '
          'C18 only (inputs outside it are answered out-of-domain by the model and reach the direct oracle only). '
          'Letter case of TRUE/FALSE in the rendering is ignored by the oracle.',
-    technique='Lean 4 kernel-checked exhaustive operator theorems over generated tables + differential correspondence check')
+    technique='Lean 4 proof (induction over trees for the parenthesised spelling; kernel-checked exhaustive operator theorems over generated tables) + differential correspondence check')
 
 CHECKS['C18'] = dict(
     text=('Lean 4 theorems (XL.Props.C18): no_escape — for EVERY string, the model of Parser.ast never produces an '
@@ -159,8 +162,9 @@ CHECKS['C03'] = dict(
           'the same values), formula_reads_only_its_references (locality of evaluation), blank_and_constant; a concrete '
           'acyclic workbook meets the hypotheses (exBook_acyclic). The model is compared cell by cell with '
           'ExcelModel.from_dict(...).calculate() on random acyclic multi-sheet/multi-book workbooks; the '
-          'implementation is additionally run in permuted insertion orders, through .xlsx files and under several '
-          'PYTHONHASHSEED values, and all results must coincide.'),
+          'implementation is additionally run in permuted insertion orders, through .xlsx files (all books loaded, and '
+          'each book loaded alone with finish() bringing in the others) and under several PYTHONHASHSEED values, and '
+          'all results must coincide. Known finding: cross-book-name.'),
     design='DESIGN.md §3 C03',
     note=COMMON_NOTE + 'schedula (dispatch order, shrink), numpy and openpyxl are external: the model evaluates a workbook '
          'by recursion on its references. Hash-seed independence and the equivalence of the file and dictionary paths '
@@ -195,7 +199,8 @@ CHECKS['C08'] = dict(
     design='DESIGN.md §3 C08',
     note=COMMON_NOTE + 'schedula shrink_dsp / get_sub_dsp_from_workflow / DispatchPipe are external: the model states what '
          'freezing must satisfy (entries independent of the inputs) and the correspondence checks the implementation '
-         'against calculate() and the model. Volatile cells are the subject of C13.',
+         'against calculate() and the model. Volatile cells are the subject of C13; C08 only checks relations between the '
+         'outputs of one call when a volatile cell is among the precedents. Known finding: compile-unlisted-blank-input.',
     technique='Lean 4 proof (freezing lemma, substitution lemma) + differential correspondence')
 
 CHECKS['C09'] = dict(
@@ -203,14 +208,14 @@ CHECKS['C09'] = dict(
           'text), strBody_doubleQ / escaped_text_token (for EVERY text, the escaped export ="..." is read by the '
           'tokeniser as exactly one string literal whose body is the doubled text) — the part of the export that had '
           'the defects repaired by a fix: commit; export_reparse_instances (kernel-checked instances of "exported '
-          'text parses back to itself"); signrun_export_counterexample (known finding). The general parse(render t) = t '
-          'is not yet proved (DESIGN §9). The check runs json.dumps(to_dict()) -> from_dict -> calculate -> to_dict '
+          'text parses back to itself"); export_reparses — for EVERY canonical tree the exported (fully parenthesised) '
+          'token list parses back to the tree, any depth; signrun_export_counterexample (known finding). The check runs json.dumps(to_dict()) -> from_dict -> calculate -> to_dict '
           'on random workbooks and on hand-built .xlsx workbooks with tricky constants, sheet names that need '
           'quoting, array formulas, names and unresolved items (values of every node equal, second export equal to '
           'the first) and re-parses the exported text of every generated formula tree.'),
     design='DESIGN.md §3 C09',
     note=COMMON_NOTE + 'to_dict/from_dict are the identity on the workbook model apart from the textual encodings; json, '
-         'openpyxl and the dispatcher are external. Known findings: sign-run, double-percent, newline-join.',
+         'openpyxl and the dispatcher are external. Known findings: sign-run, double-percent, newline-join (export-blank-listing was repaired, its witness stays as a regression input).',
     technique='Lean 4 proof of the escape encoding for all texts + round-trip oracle on the implementation + correspondence of re-parsing')
 
 CHECKS['C10'] = dict(
